@@ -38,6 +38,14 @@ FIXED = [
   "a control response with the verbose bit set whose first argument is shorter than 4 bytes panicked in lifecycle detection (sw-version sniffing) and in the anonymize plugin (Option::unwrap on get(0..4))", None),
  ("KF-C03-3", "C03", "C03-logcat-threadtime-before-year-start", "fix: logcat threadtime before the start of the year",
   "a logcat threadtime line dated before the start of the reference year (e.g. '12-31 23:59:59.999 ...' in a file modified early in the year) overflowed 'recorded_start_time_us + timestamp_us' (negative duration cast to u64)", None),
+ ("KF-C03-4", "C03", "C03-asc-offset-add-overflow", "fix: asc timestamp with offset from the reference time",
+  "CAN-ASC input read with a timestamp reference time: 'timestamp_offset_dms + timestamp/100' overflowed the u32 timestamp ('attempt to add with overflow') for a date line far after the reference time followed by a frame at 96577.668987 s", "replays/examples/C03-asc-offset-add-overflow.json"),
+ ("KF-C03-5", "C03", "C03-logcat-monotonic-timestamp-overflow", "fix: logcat monotonic timestamps that are too large",
+  "a logcat monotonic line whose seconds have 14+ digits ('99999999999999990.1000 1 1 I : ') overflowed 'secs * 1_000_000' (attempt to multiply with overflow); slightly smaller values overflowed 'recorded_start_time_us + timestamp_us'", "replays/examples/C03-logcat-monotonic-mul-overflow.json"),
+ ("KF-C03-6", "C03", "C03-asc-timestamp-mul-overflow", "fix: asc timestamps that are too large",
+  "a CAN-ASC frame line with a 14-digit seconds value ('18446744073710.654773 CANFD 89 Rx ErrorFrame ...') overflowed 'secs * 1_000_000' in parse_signed_time_str (attempt to multiply with overflow)", "replays/examples/C03-asc-timestamp-mul-overflow.json"),
+ ("KF-C03-7", "C03", "C03-hex_to_bytes-non-ascii", "fix: hex_to_bytes doesn't panic on non ascii chars",
+  "a CAN-ASC frame line whose data field contains multi-byte UTF-8 characters made utils::hex_to_bytes slice a str inside a character ('end byte index 2 is not a char boundary')", "replays/examples/C03-hex_to_bytes-non-ascii.json"),
  ("KF-C18-1", "C18", "C18-payload_from_args-empty-string-or-raw", "fix: payload_from_args writes the length",
   "utils::payload_from_args wrote no u16 length prefix for an empty string/raw argument, so the encoded payload did not decode to the same arguments (a single empty raw value: 4 bytes written, 0 arguments decoded)",
   "replays/examples/C18-payload_from_args-empty-raw.json"),
